@@ -7,7 +7,7 @@ import itertools
 import os
 from .. import clangjson as cj
 from ..report import Report
-from ..presence import Evaluator, Obj, Unknown, is_opt_type, contains_v, fmt, COMPOUND_OPS
+from ..presence import FlagMisuse, Evaluator, Obj, Unknown, is_opt_type, contains_v, fmt, COMPOUND_OPS
 
 DRIVER = '#include "xtl/xoptional.hpp"\n#include "xtl/xmasked_value.hpp"\n#include "xtl/xfunctional.hpp"\n#include "xtl/xoptional_sequence.hpp"\n'
 
@@ -169,6 +169,27 @@ def check_function(rep, d, ev_classes, n, cls, params, optp, cat):
                 res = ev.run_body(n, env)
                 res = ev.deref(res)
                 judge(rep, cat, name, fn_label, where, scen, ops_, pmap, objs, res, ev)
+                if ev.identity_tests and len(opt_names) == 2 and assign[0] == assign[1] and assign[0]:
+                    # the body branches on `this == &rhs`: evaluate the aliased call too (both operands are one present object)
+                    ev2 = Evaluator(d, ev_classes)
+                    ev2.alias = True
+                    shared = Obj(opt_names[0], True)
+                    env2 = {}
+                    for kind, nm, p in ops_:
+                        val = ("optref", shared) if kind == "opt" else ("term", ("a", nm))
+                        if p is None:
+                            env2["this"] = val
+                        else:
+                            env2[p["id"]] = val
+                    res2 = ev2.deref(ev2.run_body(n, env2))
+                    if res2[0] == "bool" and not ev2.ops:
+                        rep.violates("C04.val", fn_label, "aliased operands", where=d.where(ev.identity_tests[0]), scenario="rhs is *this; present",
+                                     detail="an identity shortcut returns the constant %s without applying the underlying operation to the values: x == x "
+                                            "must still be what the value type says (false for NaN)" % res2[1])
+                    else:
+                        rep.holds("C04.val", fn_label, "aliased operands", where=where, scenario="rhs is *this; present")
+            except FlagMisuse as e:
+                rep.violates("C04.pres", fn_label, "flag combination", where=where, scenario=scen, detail=str(e))
             except Unknown as e:
                 rep.inconclusive("C04.eval", fn_label, "body", where=where, scenario=scen, detail=str(e))
 
